@@ -76,6 +76,18 @@ def comp_case(op, ka, kb, k=0):
             elif op == "cut_contained":
                 d = CutDomain(a.dom, b.dom, contained=True)
                 want = a.oset.volume({}, L) - b.oset.volume({}, L)
+            elif op in ("cut_contained_called", "union_disjoint_called"):
+                # the flag survives partial evaluation: B depends on t, the combination is evaluated at t = v (a 0-d tensor)
+                b = SH.PRIMS[kb](env, tag="B", dep="t")
+                v = env.tensor("v_t", ())
+                prm = {"t": [SH.elems(env, v)[0]]}
+                env.assume(b.oset.positive(prm, L))
+                if op.startswith("cut"):
+                    d = CutDomain(a.dom, b.dom, contained=True)(t=v)
+                    want = a.oset.volume({}, L) - b.oset.volume(prm, L)
+                else:
+                    d = UnionDomain(a.dom, b.dom, disjoint=True)(t=v)
+                    want = a.oset.volume({}, L) + b.oset.volume(prm, L)
             elif op == "translate":
                 t = SH.translate(env, a)
                 d, want = t.dom, a.oset.volume({}, L)
@@ -104,7 +116,8 @@ def comp_case(op, ka, kb, k=0):
             else:
                 raise ValueError(op)
         SH.assume_positive(env, a, rows)
-        SH.assume_positive(env, b, rows)
+        if not op.endswith("_called"):
+            SH.assume_positive(env, b, rows)
         if k:
             P, _ = SH.params(env, [], k)
         v = d.volume(P)
@@ -259,6 +272,8 @@ def cases(tier):
             cs.append(comp_case(op, a, a, k=0))
         cs.append(comp_case("translate", a, a, k=2))
     cs.append(comp_case("set_volume_cut", "Circle", "Parallelogram"))
+    cs.append(comp_case("cut_contained_called", "Parallelogram", "Circle"))
+    cs.append(comp_case("union_disjoint_called", "Circle", "Circle"))
     cs.append(product_history_case())
     for op in ("cut", "union", "intersection", "cut_boundary"):
         cs.append(operand_reuse_case(op))
